@@ -44,6 +44,10 @@ class C08(AstKindProp):
                 ret["default"] = "```(%s, 1)```" % idents[0] if r.random() < 0.5 else "```%s```" % " + ".join(idents[:2])
                 irj["returns"] = ret
                 opts["returns_parameters"] = True
+        if kind == "argparse" and r.random() < 0.3:
+            opts["wrap_description"] = True  # (the description is re-flowed: a second pass must leave it alone)
+            if r.random() < 0.6:
+                irj["doc"] = G.sized_prose(r, r.randint(105, 180)) + ("\n" + G.sized_prose(r, 40) if r.random() < 0.4 else "")
         run.dist["kind"][kind] += 1
         return {"ir": irutil.ir_to_json(irj), "kind": kind, "opts": opts}
 
